@@ -108,9 +108,9 @@ def d2(F, X, rep):
         for x in walk(n):
             if x[0] == "bin" and x[1].startswith("Add"):
                 a0, a1 = x[2], x[3]
-                k = a1 if a1[0] == "const" else a0
+                k = a1 if lib.const_len(a1) is not None else a0
                 off = a0 if k is a1 else a1
-                if k[0] == "const" and k[2] == 2 and off[0] == "field" and off[3] == "Some" and off[4][0] == "call":
+                if lib.const_len(k) == 2 and off[0] == "field" and off[3] == "Some" and off[4][0] == "call":
                     okn = True
                     srch = off[4]
         rep.ob(rid, okn, fn, "consumes offset + 2 bytes", where=s.loc, how=show(n)[:80], detail="" if okn else "the decoder consumes %s bytes: the separator is not consumed with its message (or more is consumed)" % show(n)[:80])
@@ -132,7 +132,11 @@ def d2(F, X, rep):
                 pos = [y for y in walk(r) if y[0] == "call" and y[1] == "std::iter::Iterator::position"]
                 okp = len(pos) == 1
                 whole = False
-                if okp:
+                if okp and pos[0][2][0][0] == "call" and pos[0][2][0][1].endswith("<impl [T]>::windows"):
+                    # `buf.windows(2).position(|w| w == b"\n\n")`: every adjacent byte pair from index 0
+                    w = pos[0][2][0]
+                    whole = len(w[2]) == 2 and w[2][0][0] == "param" and lib.const_len(w[2][1]) == 2
+                elif okp:
                     it = pos[0][2][0]
                     z = it
                     whole = z[0] == "call" and z[1] == "std::iter::Iterator::zip" and len(z[2]) == 2 and \
@@ -148,6 +152,14 @@ def d2(F, X, rep):
                     cmps = [y for y in walk(rr) if y[0] == "bin" and y[1] == "Eq"]
                     conds = [c for bb2 in sorted(g.reachable) for c in [lib.decode_switch(g, bb2)] if c is not None and c.kind == "cmp" and c.op == "Eq"]
                     vals = sorted([y[3][2] for y in cmps if y[3][0] == "const"] + [int(lib.root_operand(g, c.b)["int"]) for c in conds if lib.root_operand(g, c.b)["k"] == "const"])
+                    if not vals:
+                        # the pair is compared with a byte-string constant: `window == b"\n\n"`
+                        for y in walk(rr):
+                            if y[0] == "call" and y[1] in ("std::cmp::PartialEq::eq",) and len(y[2]) == 2:
+                                for side in y[2]:
+                                    bs = lib.const_bytes(side)
+                                    if bs is not None:
+                                        vals = sorted(bs)
                     okc = vals == [10, 10]
                     rep.ob(rid, okc, F.root_of(sb), "separator is two consecutive newlines", where=loc(g.span), how=str(vals), detail="" if okc else "separator predicate compares with %s" % vals)
 
@@ -196,7 +208,7 @@ def _object_keys(b, X, send, F=None):
         for c in hb.calls:
             if c.name != "serde_json::Map::insert":
                 continue
-            if hb is b and not b.dominates(c.bb, send.bb):
+            if hb is b and send.bb not in b.reach([c.bb]):
                 continue
             m = strip(X.operand(hb, c.args[0]))
             if not any(y[0] == "call" and y[1] == "serde_json::Map::new" and y[3][1] == site for y in walk(m)):
@@ -341,7 +353,9 @@ def w(F, X, rep):
                 vals = []
                 for x in seq:
                     a = strip(X.operand(b, x.args[1]))
-                    if a[0] == "const":
+                    if lib.const_bytes(a) is not None:
+                        vals += lib.const_bytes(a)        # `buf.put(b"\n\n")`
+                    elif a[0] == "const":
                         vals.append(a[2])
                     elif any(y[0] == "param" for y in walk(a)):
                         vals.append("text")
